@@ -248,6 +248,7 @@ class Frame:
         self.sem = sem
         self.pre, self.post = NS(), NS()
         self.names = list(argvals)
+        self.argvals = argvals
         for n, v in argvals.items():
             if isinstance(v, Sc):
                 setattr(self, n, v.t)
@@ -332,6 +333,8 @@ class Path:
         self.par = None  # (iid) of an enclosing prange loop
         self.last = {}  # source variable name -> most recently assigned IR version on this path
         self.versions = ()  # (source name, IR version) in order of assignment on this path
+        self.calls = ()  # kernel calls made on this path: (callee qualname, {param: value}, result)
+        self.calls_mark = 0  # index into calls at the innermost loop header
         self.exit_k = {}  # loop ordinal -> iteration count at exit (loops left through the header)
 
     def fork(self):
@@ -346,6 +349,10 @@ class Path:
         p.last = dict(self.last)
         p.exit_k = dict(self.exit_k)
         p.versions = self.versions
+        p.calls = self.calls
+        p.calls_mark = self.calls_mark
+        p.header_env = getattr(self, "header_env", {})
+        p.header_k = getattr(self, "header_k", None)
         return p
 
 
@@ -648,7 +655,7 @@ class Engine:
                 return p.env[st.value.value.name]
         return None
 
-    def _inv_clauses(self, li, p, entry_heap):
+    def _inv_clauses(self, li, p, entry_heap, phase="assume"):
         inv = None if self.contract is None else self.contract.loops.get(li.ordinal)
         it = self._loop_iter(li, p)
         if it is None:
@@ -675,6 +682,19 @@ class Engine:
 
             L = LoopCtx(k, n, varfn, cur, ent)
             L.path = p
+            L.phase = phase
+            L.calls = p.calls[p.calls_mark:] if phase == "preserve" else ()
+            L.k_header = getattr(p, "header_k", None)
+
+            def at_header(name, p=p, li=li):
+                he = getattr(p, "header_env", {})
+                c = [v for v in he if v == name or v.startswith(name + ".")]
+                if len(c) != 1:
+                    raise BindingLost("loop variable %r at header: %s" % (name, c))
+                v = he[c[0]]
+                return v.t if isinstance(v, Sc) else v
+
+            L.at_header = at_header
             for item in inv(F, L):
                 if not self._clause_ok(self.contract, item[0]):
                     continue
@@ -706,7 +726,7 @@ class Engine:
     def _check_inv(self, li, p, phase, entry_heap):
         if phase == "init":
             entry_heap = p.heap
-        for name, f, is_assume in self._inv_clauses(li, p, entry_heap):
+        for name, f, is_assume in self._inv_clauses(li, p, entry_heap, phase):
             if is_assume:
                 continue
             self._emit("inv%d-%s" % (li.ordinal, phase), name, p, f, li.header)
@@ -740,6 +760,9 @@ class Engine:
         if it.kind == "range" and it.src.parallel:
             p.par = it.iid
         p.loops.append((li.header, li, entry_heap, it.iid))
+        p.calls_mark = len(p.calls)
+        p.header_env = {v: p.env[v] for v in li.carried if v in p.env}
+        p.header_k = p.iters[it.iid]
         for name, f, is_assume in self._inv_clauses(li, p, entry_heap):
             p.pc.append(f)
             if is_assume:
@@ -795,6 +818,8 @@ class Engine:
 
         F.local = local
         F.loop_k = lambda ordinal, p=p: p.exit_k.get(ordinal)
+        F.calls = p.calls
+        F.retval = val
         F.locals = lambda name, p=p: [p.env[v].t for b, v in p.versions if b == name and isinstance(p.env.get(v), Sc)]
         base_pc = p.pc
         extra = list(self.contract.post_defs(F))
@@ -1091,6 +1116,7 @@ class Engine:
             p.pc.extend(arr.axioms())
         rty = unlit(sig.return_type)
         res = self._fresh_value(uid("ret_" + cname.split(".")[-1]), rty, p)
+        p.calls = p.calls + ((cname, dict(argvals), res),)
         F2 = Frame(sem, argvals, pre_heap, p.heap, res)
         g = NS()
         gl = list(c.ghosts(F))
